@@ -1,6 +1,7 @@
 package ws
 
 import (
+	"bytes"
 	"encoding/binary"
 	"fmt"
 	"io"
@@ -99,13 +100,37 @@ func ReadFrame(r io.Reader) (f Frame, err error) {
 	}
 
 	if f.Header.Length > 0 {
-		// int(f.Header.Length) is safe here cause we have
-		// checked it for overflow above in ReadHeader.
-		f.Payload = make([]byte, int(f.Header.Length))
-		_, err = io.ReadFull(r, f.Payload)
+		f.Payload, err = readPayload(r, f.Header.Length)
 	}
 
 	return f, err
+}
+
+// maxPayloadPrealloc is the maximum number of bytes that ReadFrame allocates
+// in advance for the payload, trusting the length announced by a header.
+const maxPayloadPrealloc = 1 << 20
+
+// readPayload reads n bytes of payload from r.
+//
+// The length announced by a peer is not trusted blindly: payload which is
+// bigger than maxPayloadPrealloc is read incrementally, such that memory is
+// allocated only for the bytes that are really received. That is, a header
+// with huge length must not lead to a huge allocation (or to a crash, when
+// such allocation is not possible).
+func readPayload(r io.Reader, n int64) ([]byte, error) {
+	if n <= maxPayloadPrealloc {
+		// int(n) is safe here.
+		p := make([]byte, int(n))
+		_, err := io.ReadFull(r, p)
+		return p, err
+	}
+	buf := bytes.NewBuffer(make([]byte, 0, maxPayloadPrealloc))
+	m, err := io.CopyN(buf, r, n)
+	if err == io.EOF && m > 0 {
+		// Be consistent with io.ReadFull() used above.
+		err = io.ErrUnexpectedEOF
+	}
+	return buf.Bytes(), err
 }
 
 // MustReadFrame is like ReadFrame but panics if frame can not be read.
